@@ -402,7 +402,36 @@ def run(F, R, tier):
         for op in ops:
             ko = H.origins(op["args"][0], env, extra=re.compile(r"MethodDigest::pack$|::as_ref$")) if op.get("args") else set()
             r4.require(bool(ko) and all(o[0] == "param" for o in ko), (fn, "key-arg"), "%s::%s does not look up the caller's id: %s" % (L.short(ty), name, sorted(map(str, ko))))
-    r4.floor(8)
+    # Stronghold key store, delete: the client's `delete_secret` answers "the vault could be cleaned up" (revoke + garbage collection), not
+    # "the record existed" — reviewed fact about iota_stronghold 2.1 (ClientVault::delete_secret = revoke_secret; cleanup).  Whether the
+    # key id is known must therefore come from `record_exists` on the same location: on the decision table every path that reaches
+    # delete_secret has record_exists(vault, key_id) ✓ = true behind it, and the = false row is Err(KeyNotFound) without any deletion.
+    fn = impl_fn(F, SH, JS, "delete")
+    if r4.require(fn is not None, (SH, "delete", "ANCHOR"), "StrongholdStorage::delete not found"):
+        tabd = SR.Table(F, fn, opaque=r"get_stronghold$|get_client$|record_exists$|delete_secret$|revoke_secret$|persist_changes$|Client::vault$|Location::generic$|as_secret_manager$|KeyStorageError::\w+$", rule=r4)
+        KID = SR.param(sym.param_name(F, fn, 1, "key_id"))
+        rows = set()
+        for q in tabd.paths:
+            evs = [e for e in q.events if e.kind == "call"]
+            ex = [e for e in evs if re.search(r"record_exists$", e.fn or "") and q.succeeded(e) is True and any(SR.derives(a, KID) for a in e.args)]
+            known = [q.val.get(("truth", ("payload", e.result.t, "Ok", 0))) for e in ex]
+            dels = [e for e in evs if re.search(r"(delete_secret|revoke_secret|revoke_data|delete_data)$", e.fn or "")]
+            ok = SR.is_success(q.ret) and not SR.is_failure(q.ret)
+            if dels:
+                first = min(evs.index(e) for e in dels)
+                gated = any(k is True and evs.index(e) < first for e, k in zip(ex, known))
+                r4.require(gated, (fn, "exists-before-delete"), "StrongholdStorage::delete reaches the vault's delete_secret without record_exists(vault, key_id) ✓ = true: delete_secret's boolean does not say "
+                           "whether the record existed, so an unknown or already deleted key id is \"deleted\" successfully — path: %s" % q.describe()[:200])
+                r4.require(all(any(SR.derives(a, KID) for a in e.args) for e in dels), (fn, "key-arg"), "StrongholdStorage::delete does not delete the caller's key id")
+                rows.add("deleted-ok" if ok else "deleted-err")
+            elif False in known:
+                r4.require(not ok and "KeyNotFound" in sym.fmt(sym.term(q.ret)), (fn, "not-found"), "StrongholdStorage::delete does not report KeyNotFound for a key id whose record does not exist (%s)" % sym.fmt(sym.term(q.ret))[:120])
+                rows.add("absent")
+            else:
+                r4.require(not ok, (fn, "ok-without-delete"), "StrongholdStorage::delete returns Ok without having deleted anything — path: %s" % q.describe()[:200])
+        r4.site("StrongholdStorage::delete rows: %s" % sorted(rows))
+        r4.require({"deleted-ok", "absent"} <= rows or not tabd.paths, (fn, "rows"), "StrongholdStorage::delete does not show the rows (record exists → deleted) and (record absent → KeyNotFound): %s" % sorted(rows))
+    r4.floor(9)
 
     # ------------------------------------------------------------------ R5 lock discipline of the mem stores (type level)
     r5 = R.rule("C15-R5", "T13", "the mem stores keep their maps behind an async RwLock and no method hands out the map or a guard")
